@@ -51,24 +51,52 @@ Fixpoint find_from (p : N -> bool) (s : str) (i : nat) : nat :=
   end.
 Definition index_from (p : N -> bool) (s : str) (i : nat) : nat := find_from p (skipn i s) i.
 
-(* VolumeNameLen, vfs_ostype_on.go:792 *)
+Definition to_upper (c : N) : N := if N.leb 97 c && N.leb c 122 then (c - 32)%N else c.
+
+(* pathHasPrefixFold(s, prefix): prefix compared ignoring ASCII case, every separator of the prefix standing
+   for either separator; when s is longer than the prefix the next byte must be a separator *)
+Fixpoint has_prefix_fold (s prefix : str) : bool :=
+  match prefix with
+  | [] => match s with [] => true | c :: _ => is_slash c end
+  | p :: prefix' =>
+      match s with
+      | [] => false
+      | c :: s' => (if is_slash p then is_slash c else N.eqb (to_upper p) (to_upper c))
+                   && has_prefix_fold s' prefix'
+      end
+  end.
+
+(* uncLen(path, prefixLen): index of the second separator at or after prefixLen, len(path) when there is none
+   (also when prefixLen > len(path): the loop does not run) *)
+Fixpoint unc_len_from (s : str) (i count : nat) : nat :=
+  match s with
+  | [] => i
+  | c :: s' => if is_slash c then (if Nat.eqb count 1 then i else unc_len_from s' (S i) (S count))
+               else unc_len_from s' (S i) count
+  end.
+Definition unc_len (path : str) (prefix_len : nat) : nat :=
+  if Nat.ltb (length path) prefix_len then length path
+  else unc_len_from (skipn prefix_len path) prefix_len 0.
+
+Definition PFX_DEV_UNC : str := [92; 92; 46; 92; 85; 78; 67]%N.   (* \\.\UNC *)
+Definition PFX_DEV : str := [92; 92; 46]%N.                       (* \\.     *)
+Definition PFX_ROOT_DEV : str := [92; 92; 63]%N.                  (* \\?     *)
+Definition PFX_NT : str := [92; 63; 63]%N.                        (* \??     *)
+
+(* VolumeNameLen, vfs_ostype_on.go (the volumeNameLen of internal/filepathlite, Go 1.23) *)
 Definition volume_name_len (os : ostype) (path : str) : nat :=
   match os with
   | Linux => 0
   | Windows =>
       let l := length path in
-      if Nat.ltb l 2 then 0
-      else if N.eqb (nthb path 1) COLON && is_letter (nthb path 0) then 2
-      else if Nat.leb 5 l && is_slash (nthb path 0) && is_slash (nthb path 1)
-              && negb (is_slash (nthb path 2)) && negb (N.eqb (nthb path 2) DOT) then
-        (* for n := 3; n < l-1; n++ { if isSlash(path[n]) {...; break} } *)
-        let n := index_from is_slash path 3 in
-        if Nat.ltb n (l - 1) then
-          let m := S n in
-          if is_slash (nthb path m) then 0
-          else if N.eqb (nthb path m) DOT then 0
-          else index_from is_slash path m
-        else 0
+      if Nat.leb 2 l && N.eqb (nthb path 1) COLON then 2          (* drive designator: any byte, then ':' *)
+      else if Nat.eqb l 0 || negb (is_slash (nthb path 0)) then 0
+      else if has_prefix_fold path PFX_DEV_UNC then unc_len path 8  (* len(`\\.\UNC\`) *)
+      else if has_prefix_fold path PFX_DEV || has_prefix_fold path PFX_ROOT_DEV || has_prefix_fold path PFX_NT then
+        (* the component after the 4-byte prefix belongs to the volume:
+           _, rest, ok := cutPath(path[4:]); !ok -> len(path); else len(path)-len(rest)-1 = index of that separator *)
+        if Nat.eqb l 3 then 3 else index_from is_slash path 4
+      else if Nat.leb 2 l && is_slash (nthb path 1) then unc_len path 2
       else 0
   end.
 
@@ -216,8 +244,6 @@ Fixpoint intercalate (sep : str) (l : list str) : str :=
   | [x] => x
   | x :: l' => x ++ sep ++ intercalate sep l'
   end.
-
-Definition to_upper (c : N) : N := if N.leb 97 c && N.leb c 122 then (c - 32)%N else c.
 
 (* pathHasPrefixFold(s, "??") *)
 Definition has_prefix_qq (s : str) : bool :=
